@@ -526,7 +526,7 @@ def s2c_waiter_all(ctx, behaviours):
     the assumptions."""
     legacy = [b for b in behaviours if 'gencoro' in aw_kinds(b['tree'], {}).values()]
     s2c_waiter(ctx, [b for b in behaviours if 'gencoro' not in aw_kinds(b['tree'], {}).values()])
-    listed = any((k.get('where') or {}).get('family') == 'gencoro' for k in ctx.known)
+    listed = True       # repaired in /repo (waiter uses inspect.isawaitable): the legacy family is judged like every other one
     found = []
     s2c_waiter(ctx, legacy, report=None if listed else (lambda clause, case, detail=None: found.append((clause, case, detail))))
     if found:
